@@ -29,6 +29,7 @@ ASPECTS = {
     "C04": ("counts", "fired"),
     "C05": ("counts", "fired"),
     "C08": ("instants", "batches", "now"),
+    "C10": ("batches",),                     # batches with their metadata
 }
 
 
